@@ -9,7 +9,7 @@ FILES = {
     "OSq.Proofs.ABA": {"C01": None, "C10": ["OSq.ABA.aba_total"]},
     "OSq.Proofs.DecomposeLoop": {"C01": ["OSq.decompose", "OSq.genLoop", "OSq.splice"], "C06": ["OSq.decompose_fail", "OSq.decompose_ok_or", "OSq.replace", "OSq.splice", "OSq.decompose_nongates"],
                                   "C05": ["OSq.decompose_nongates", "OSq.replace_nongates", "OSq.decompose_ok_or_prefix"], "C20": ["OSq.replace_only_named", "OSq.replace_eq_decompose_const"]},
-    "OSq.Proofs.Construct": {"C15": None, "C01": ["OSq.normalizeAngle_range"], "C07": ["OSq.mkBSR_denotes", "OSq.can1_eq_rot"]},
+    "OSq.Proofs.Construct": {"C15": None, "C01": ["OSq.normalizeAngle_range"], "C07": ["OSq.mkBSR_denotes", "OSq.can1_eq_rot"], "C16": ["OSq.can1_eq_rot"]},
     "OSq.Proofs.Compose": {"C02": None, "C14": ["OSq.compose_name"]},
     "OSq.Proofs.MergeStruct": {"C02": None, "C14": None},
     "OSq.Proofs.MergeAbstract": {"C02": None},
